@@ -1,5 +1,7 @@
-"""ipnet / std::net values for the allowlist code (C18), IPv4 only:
-  IpNet  = Native("net", (addr: bv32, prefix_len: bv8))      IpAddr = Native("ip", addr: bv32)
+"""ipnet / std::net values for the allowlist code (C18).
+IPv4-only form:   IpNet = Native("net", (addr: bv32, prefix_len: bv8))                 IpAddr = Native("ip", addr: bv32)
+two-family form:  IpNet = Native("net", (addr: bv128, prefix_len: bv8, is_v6: Bool))   IpAddr = Native("ip", (addr: bv128, is_v6: Bool))
+(an IPv4 address sits in the low 32 bits; a network contains an address only of its own family; the derived orders put V4 before V6)
 Contracts (ipnet 2.x documentation): contains(net, ip) <=> ip & netmask == addr & netmask; trunc() clears the host bits;
 network() = addr & netmask; broadcast() = addr | hostmask; Eq/Ord are the derived ones on (addr, prefix_len); IpAddr is ordered
 numerically. IPv6 goes through the same generic code paths of /repo and is outside the encoding."""
@@ -19,7 +21,31 @@ def mask(plen):
     return z3.BitVecVal(0xFFFFFFFF, 32) << (z3.BitVecVal(32, 32) - z3.ZeroExt(24, plen))
 
 
+def net2(addr, plen, v6):
+    return Native("net", (addr, plen, v6))
+
+
+def ip2(addr, v6):
+    return Native("ip", (addr, v6))
+
+
+def two(v):
+    return isinstance(v.data, tuple) and len(v.data) == (3 if v.kind == "net" else 2) and z3.is_bool(v.data[-1])
+
+
+def mask2(plen, v6):
+    p = z3.ZeroExt(120, plen)
+    m6 = z3.BitVecVal((1 << 128) - 1, 128) << (z3.BitVecVal(128, 128) - p)
+    m4 = (z3.BitVecVal(0xFFFFFFFF, 128) << (z3.BitVecVal(32, 128) - p)) & z3.BitVecVal(0xFFFFFFFF, 128)
+    return z3.If(v6, m6, m4)
+
+
 def contains_ip(n, a):
+    if two(n):
+        addr, plen, v6 = n.data
+        ia, i6 = a
+        m = mask2(plen, v6)
+        return z3.And(v6 == i6, (ia & m) == (addr & m))
     m = mask(n.data[1])
     return (a & m) == (n.data[0] & m)
 
@@ -36,6 +62,8 @@ def m_contains(eng, ctx, f, path, args, dty):
         raise Unsupported(f"IpNet::contains on {n}")
     if isinstance(o, Native) and o.kind == "ip":
         return contains_ip(n, o.data)
+    if isinstance(o, Native) and o.kind == "net" and two(n):
+        return z3.And(z3.ULE(n.data[1], o.data[1]), contains_ip(n, (o.data[0], o.data[2])))
     if isinstance(o, Native) and o.kind == "net":
         return z3.And(z3.ULE(n.data[1], o.data[1]), contains_ip(n, o.data[0]))
     raise Unsupported(f"IpNet::contains({n}, {o})")
@@ -46,13 +74,33 @@ def _net1(fn):
         n = _ld(eng, ctx, args[0])
         if not (isinstance(n, Native) and n.kind == "net"):
             raise Unsupported(f"IpNet method on {n}")
+        if two(n):
+            a, l, v6 = n.data
+            m = mask2(l, v6)
+            full = z3.If(v6, z3.BitVecVal((1 << 128) - 1, 128), z3.BitVecVal(0xFFFFFFFF, 128))
+            name = fn.__name__ if hasattr(fn, "__name__") else ""
+            return fn2[h.which](a, l, v6, m, full)
         return fn(n.data[0], n.data[1])
     return h
+
+
+fn2 = {
+    "trunc": lambda a, l, v6, m, full: net2(a & m, l, v6),
+    "network": lambda a, l, v6, m, full: ip2(a & m, v6),
+    "broadcast": lambda a, l, v6, m, full: ip2(a | (~m & full), v6),
+    "netmask": lambda a, l, v6, m, full: ip2(m, v6),
+    "hostmask": lambda a, l, v6, m, full: ip2(~m & full, v6),
+    "addr": lambda a, l, v6, m, full: ip2(a, v6),
+    "prefix_len": lambda a, l, v6, m, full: l,
+    "max_prefix_len": lambda a, l, v6, m, full: z3.If(v6, z3.BitVecVal(128, 8), z3.BitVecVal(32, 8)),
+}
 
 
 def native_eq(eng, ctx, a, b):
     if not (isinstance(a, Native) and isinstance(b, Native) and a.kind == b.kind):
         raise Unsupported(f"equality of {a} and {b}")
+    if two(a) and two(b):
+        return z3.And(*[x == y for x, y in zip(a.data, b.data)])
     if a.kind == "ip":
         return a.data == b.data
     return z3.And(a.data[0] == b.data[0], a.data[1] == b.data[1])
@@ -61,6 +109,15 @@ def native_eq(eng, ctx, a, b):
 def native_lt(eng, ctx, a, b):
     if not (isinstance(a, Native) and isinstance(b, Native) and a.kind == b.kind):
         raise Unsupported(f"ordering of {a} and {b}")
+    if two(a) and two(b):
+        # derived orders of the enums IpNet / IpAddr: the V4 variant first, then the fields in order
+        fa, fb = a.data[-1], b.data[-1]
+        eq = z3.And(*[x == y for x, y in zip(a.data, b.data)])
+        if a.kind == "ip":
+            inner = z3.ULT(a.data[0], b.data[0])
+        else:
+            inner = z3.Or(z3.ULT(a.data[0], b.data[0]), z3.And(a.data[0] == b.data[0], z3.ULT(a.data[1], b.data[1])))
+        return z3.Or(z3.And(z3.Not(fa), fb), z3.And(fa == fb, inner)), eq
     if a.kind == "ip":
         return z3.ULT(a.data, b.data), a.data == b.data
     lt = z3.Or(z3.ULT(a.data[0], b.data[0]), z3.And(a.data[0] == b.data[0], z3.ULT(a.data[1], b.data[1])))
@@ -74,16 +131,41 @@ def install(eng):
     eng.native_lt["ip"] = native_lt
 
 
+def _named(which, fn):
+    h = _net1(fn)
+    h.which = which
+    return h
+
+
+def _from_ip(eng, ctx, f, path, args, dty):
+    a = _ld(eng, ctx, args[0])
+    if two(a):
+        return net2(a.data[0], z3.If(a.data[1], z3.BitVecVal(128, 8), z3.BitVecVal(32, 8)), a.data[1])
+    return net(a.data, z3.BitVecVal(32, 8))
+
+
+def _is_v6(want):
+    def h(eng, ctx, f, path, args, dty):
+        a = _ld(eng, ctx, args[0])
+        if isinstance(a, Native) and a.kind == "ip":
+            v6 = a.data[1] if two(a) else z3.BoolVal(False)
+            return v6 if want else z3.Not(v6)
+        raise Unsupported(f"is_ipv4/is_ipv6 of {a}")
+    return h
+
+
 NET = {
-    r"^(ipnet::)?(IpNet|Ipv4Net)::contains$": m_contains,
-    r"^(ipnet::)?(IpNet|Ipv4Net)::trunc$": _net1(lambda a, l: net(a & mask(l), l)),
-    r"^(ipnet::)?(IpNet|Ipv4Net)::network$": _net1(lambda a, l: ip(a & mask(l))),
-    r"^(ipnet::)?(IpNet|Ipv4Net)::broadcast$": _net1(lambda a, l: ip(a | ~mask(l))),
-    r"^(ipnet::)?(IpNet|Ipv4Net)::netmask$": _net1(lambda a, l: ip(mask(l))),
-    r"^(ipnet::)?(IpNet|Ipv4Net)::hostmask$": _net1(lambda a, l: ip(~mask(l))),
-    r"^(ipnet::)?(IpNet|Ipv4Net)::addr$": _net1(lambda a, l: ip(a)),
-    r"^(ipnet::)?(IpNet|Ipv4Net)::prefix_len$": _net1(lambda a, l: l),
-    r"^(ipnet::)?(IpNet|Ipv4Net)::max_prefix_len$": _net1(lambda a, l: z3.BitVecVal(32, 8)),
+    r"^(std::net::)?IpAddr::is_ipv6$": _is_v6(True),
+    r"^(std::net::)?IpAddr::is_ipv4$": _is_v6(False),
+    r"^(ipnet::)?(IpNet|Ipv4Net|Ipv6Net)::contains$": m_contains,
+    r"^(ipnet::)?(IpNet|Ipv4Net|Ipv6Net)::trunc$": _named("trunc", lambda a, l: net(a & mask(l), l)),
+    r"^(ipnet::)?(IpNet|Ipv4Net|Ipv6Net)::network$": _named("network", lambda a, l: ip(a & mask(l))),
+    r"^(ipnet::)?(IpNet|Ipv4Net|Ipv6Net)::broadcast$": _named("broadcast", lambda a, l: ip(a | ~mask(l))),
+    r"^(ipnet::)?(IpNet|Ipv4Net|Ipv6Net)::netmask$": _named("netmask", lambda a, l: ip(mask(l))),
+    r"^(ipnet::)?(IpNet|Ipv4Net|Ipv6Net)::hostmask$": _named("hostmask", lambda a, l: ip(~mask(l))),
+    r"^(ipnet::)?(IpNet|Ipv4Net|Ipv6Net)::addr$": _named("addr", lambda a, l: ip(a)),
+    r"^(ipnet::)?(IpNet|Ipv4Net|Ipv6Net)::prefix_len$": _named("prefix_len", lambda a, l: l),
+    r"^(ipnet::)?(IpNet|Ipv4Net|Ipv6Net)::max_prefix_len$": _named("max_prefix_len", lambda a, l: z3.BitVecVal(32, 8)),
     r"^<(IpNet|Ipv4Net|IpAddr|Ipv4Addr) as Clone>::clone$": lambda eng, ctx, f, path, args, dty: _ld(eng, ctx, args[0]),
-    r"^<IpNet as From<IpAddr>>::from$|^<IpAddr as Into<IpNet>>::into$": lambda eng, ctx, f, path, args, dty: net(_ld(eng, ctx, args[0]).data, z3.BitVecVal(32, 8)),
+    r"^<IpNet as From<IpAddr>>::from$|^<IpAddr as Into<IpNet>>::into$": _from_ip,
 }
